@@ -1,5 +1,5 @@
 (* C06 - Incremental screen updates leave the terminal identical to a full redraw.
-   Statements only; proofs are in Proofs/C06_{TermFacts,RowFacts,DiffFacts,SyncFacts,ScrollFacts,DoneScroll,LastRow,NegCols}.v.
+   Statements only; proofs are in Proofs/C06_{TermFacts,RowFacts,DiffFacts,SyncFacts,ScrollFacts,DoneScroll,LastRow,SafeTokens,ModesFacts,NegCols}.v.
 
    Setting.  W x H is the terminal size, fs = full_screen.  [tbs cfg] are the
    style tables of configuration cfg (style sheet x style transformation x
@@ -42,9 +42,9 @@
    Still outside the theorems: reset() with the cursor away from column 0,
    terminal resize between renders, C06-F2 screens. *)
 From Coq Require Import ZArith List Bool.
-From PTK Require Import Lib.Sx Lib.Py Model.C06_Terminal Model.C06_Renderer Model.C06_Run
+From PTK Require Import Lib.Sx Lib.Py Model.C06_Terminal Model.C06_Renderer Model.C06_Modes Model.C06_Run
   Proofs.C06_TermFacts Proofs.C06_RowFacts Proofs.C06_DiffFacts Proofs.C06_SyncFacts
-  Proofs.C06_ScrollFacts Proofs.C06_DoneScroll Proofs.C06_LastRow Proofs.C06_NegCols.
+  Proofs.C06_ScrollFacts Proofs.C06_DoneScroll Proofs.C06_LastRow Proofs.C06_SafeTokens Proofs.C06_ModesFacts Proofs.C06_NegCols.
 Import ListNotations.
 Open Scope Z_scope.
 
@@ -228,6 +228,65 @@ Theorem C06_equiv_reset_col0 : forall ops col0 cfg scr r0 t0 r0' t0',
                     (snd (run_seq W fs tbs r0' t0' [ORender cfg false W H scr])).
 Proof. exact (equiv_scratch_reset0 W H fs tbs pvis wof HW HH Hpv Hw32). Qed.
 
+(* The terminal model's two debatable choices are never exercised.  [saferun W t ks]:
+   interpreting ks from t, every erase (EL, ED) and every line feed (the only token
+   that can scroll and fill a new last row) is executed with the pen reset (ESC[0m)
+   - so background-colour-erase and erase-with-default-attributes give the same
+   cells - and every text token is executed with autowrap OFF - so the cursor is
+   never parked with a pending wrap and deferred vs immediate wrap cannot matter.
+   It holds for every render from a state in Sync, for erase()/reset() when the pen
+   is reset, hence for every token of every history started with the pen reset;
+   and ANY terminal step function that agrees with the model on safe tokens
+   computes the same terminal (C06_choice_independent): the verdicts of all
+   theorems above do not depend on those two choices. *)
+Theorem C06_render_tokens_safe : forall r t cfg done scr r' ks,
+  Sync W H fs tbs pvis wof r t -> r_render tbs fs r cfg done W H scr = (r', ks) ->
+  saferun W t ks /\ pen (trun W t ks) = 0.
+Proof. exact (render_safe W H fs tbs pvis wof). Qed.
+
+Theorem C06_erase_tokens_safe : forall r t r' ks,
+  pen t = 0 -> r_erase r = (r', ks) -> saferun W t ks /\ pen (trun W t ks) = 0.
+Proof. exact (erase_safe W). Qed.
+
+Theorem C06_history_tokens_safe : forall ops col0 r t,
+  Sync W H fs tbs pvis wof r t -> pen t = 0 -> (col0 = true -> fst (rpos r) = 0) ->
+  okseq0 W H wof col0 ops -> safe_seq W fs tbs r t ops.
+Proof. exact (seq_safe W H fs tbs pvis wof HW HH Hpv Hw32). Qed.
+
+Theorem C06_choice_independent : forall (step' : term -> tok -> term),
+  (forall t k, safe_tok t k -> step' t k = tstep W t k) ->
+  forall ks t, saferun W t ks -> fold_left step' ks t = trun W t ks.
+Proof. exact (choice_independent W). Qed.
+
+(* Terminal-mode toggles.  The function the harness runs against the real Renderer
+   is Model/C06_Modes.v [m_step]: the core renderer plus mouse support
+   (_mouse_support_enabled, the filter evaluated at every render) and cursor shapes
+   (_last_cursor_shape, Vt100_Output._cursor_shape_changed).  It keeps the core
+   state of [r_step] and emits the same tokens up to raw mode sequences, which
+   change nothing of grid / cursor / pen: every theorem above holds for the
+   terminal it produces (also on the bounded terminal).  reset() - hence every
+   final render and erase - switches off everything the renderer switched on
+   (alternate screen, bracketed paste, mouse, cursor shape). *)
+Theorem C06_modes_refine_core : forall m o,
+  mcore (fst (m_step tbs fs m o)) = fst (r_step tbs fs (mcore m) (core_op o)) /\
+  noraw (snd (m_step tbs fs m o)) = noraw (snd (r_step tbs fs (mcore m) (core_op o))).
+Proof. exact (m_step_core tbs fs). Qed.
+
+Theorem C06_modes_same_terminal : forall m o t,
+  trun W t (snd (m_step tbs fs m o)) = trun W t (snd (r_step tbs fs (mcore m) (core_op o))).
+Proof. intros. apply m_step_terminal. Qed.
+
+Theorem C06_modes_same_terminal_bounded : forall m o B s,
+  trunB B W s (snd (m_step tbs fs m o)) = trunB B W s (snd (r_step tbs fs (mcore m) (core_op o))).
+Proof. intros. apply m_step_terminalB. Qed.
+
+Theorem C06_reset_clears_modes : forall m s,
+  ModeOK m s ->
+  let s' := mode_run s (snd (m_reset m)) in
+  md_alt s' = false /\ md_bp s' = false /\ md_mouse s' = false /\ md_shape s' = 0 /\
+  ModeOK (fst (m_reset m)) s'.
+Proof. exact m_reset_modes. Qed.
+
 (* Non-vacuity: a fresh Renderer on any terminal whose cursor sits on the origin
    satisfies Sync. *)
 Theorem C06_sync_initial : forall t, cx t = 0 -> cy t = 0 -> pend t = false -> undef t = false ->
@@ -256,6 +315,14 @@ Print Assumptions C06_equiv_reset.
 Print Assumptions C06_reset_col0.
 Print Assumptions C06_sync_history_reset_col0.
 Print Assumptions C06_equiv_reset_col0.
+Print Assumptions C06_render_tokens_safe.
+Print Assumptions C06_erase_tokens_safe.
+Print Assumptions C06_history_tokens_safe.
+Print Assumptions C06_choice_independent.
+Print Assumptions C06_modes_refine_core.
+Print Assumptions C06_modes_same_terminal.
+Print Assumptions C06_modes_same_terminal_bounded.
+Print Assumptions C06_reset_clears_modes.
 Print Assumptions C06_sync_initial.
 
 (* last_style tracking, explicit at every fragment of the diff loop.
